@@ -491,12 +491,12 @@ def _wrap_mediator_constructor(cls):
         return
 
     @functools.wraps(original)
-    def wrapper(self, input_output_handler, state_handler, scheduler, activator):
+    def wrapper(self, input_output_handler, state_handler, scheduler, activator, **kwargs):
         io = Proxy(unproxy(input_output_handler), "input_output_handler")
         sh = Proxy(unproxy(state_handler), "state_handler")
         sc = Proxy(unproxy(scheduler), "scheduler")
         ac = Proxy(unproxy(activator), "activator")
-        original(self, io, sh, sc, ac)
+        original(self, io, sh, sc, ac, **kwargs)
         for h in HUB.h_on_mediator:
             h(self, unproxy(io), unproxy(sh), unproxy(sc), unproxy(ac))
 
@@ -520,6 +520,10 @@ def install():
     import jellyfysh.lifting.lifting as lifting_module
     import jellyfysh.event_handler.walker as walker_module
     import jellyfysh.base.exceptions as exceptions_module
+
+    # harness input handler, reachable by the factory as jellyfysh.input_output_handler.input_handler.lattice_...
+    from . import harness_input
+    sys.modules["jellyfysh.input_output_handler.input_handler.lattice_input_handler"] = harness_input
 
     report = {"random": _install_random_facade(), "event_handler_methods": [], "potential_methods": [],
               "lifting_methods": [], "warning_sites": []}
